@@ -87,6 +87,8 @@ pub struct DecCheck<'a> {
     pub random_per_enc: u64,
     pub profile: Profile,
     pub fills: Vec<u8>,
+    /// also enumerate histories that switch between the output methods call by call
+    pub mixed_sinks: bool,
 }
 
 fn nontrivial_mark(st: &mut Stats, enumerated: bool, h: &DecHistory) {
@@ -158,16 +160,26 @@ pub fn run_dec_check(ctx: &Ctx, check: &DecCheck) -> Stats {
                             for last_on_empty in [false, true] {
                                 for (pi, caps) in pats.iter().enumerate() {
                                     let fill = check.fills[(pi + cuts.len()) % check.fills.len()];
-                                    let h = DecHistory { enc, mode, sink, repl, stream: stream.clone(), cuts: cuts.clone(), last_on_empty, caps: caps.clone(), fill, align: (si + pi) & 15 };
-                                    st.evals += 1;
-                                    if let Some((msg, sig)) = (check.verdict)(&h, &mut sc, st, true) {
-                                        if let Some(id) = fw::known_open_id(&sig) {
-                                            st.known_hit(id);
-                                        } else {
-                                            st.violations.push(violation_for(&h, check, msg, sig));
-                                            return;
+                                    let pure = DecHistory { enc, mode, sink, repl, stream: stream.clone(), cuts: cuts.clone(), last_on_empty, caps: caps.clone(), fill, align: (si + pi) & 15, sinks_per_call: vec![] };
+                                    let mut variants = vec![pure];
+                                    if check.mixed_sinks && (pi + cuts.len()) % 3 == 0 {
+                                        // the same history switching between the output methods call by call
+                                        let mut m = variants[0].clone();
+                                        m.sinks_per_call = vec![[Sink::Utf8, Sink::Utf16, Sink::Str, Sink::String][(si + pi) & 3], sink, [Sink::Utf16, Sink::Utf8, Sink::String][pi % 3]];
+                                        variants.push(m);
+                                    }
+                                    for h in &variants {
+                                        st.evals += 1;
+                                        if let Some((msg, sig)) = (check.verdict)(h, &mut sc, st, true) {
+                                            if let Some(id) = fw::known_open_id(&sig) {
+                                                st.known_hit(id);
+                                            } else {
+                                                st.violations.push(violation_for(h, check, msg, sig));
+                                                return;
+                                            }
                                         }
                                     }
+                                    let h = &variants[0];
                                     st.sample(1, || h.to_json());
                                 }
                             }
@@ -228,7 +240,7 @@ pub fn run_dec_check(ctx: &Ctx, check: &DecCheck) -> Stats {
                             let cap = (l + delta).saturating_sub(2).max(sink.min_cap());
                             for caps in [vec![cap], vec![cap, 64]] {
                                 for cuts in [vec![], vec![run_bytes], vec![run_bytes + 1]] {
-                                    let h = DecHistory { enc, mode: check.modes[0], sink, repl, stream: stream.clone(), cuts, last_on_empty: delta & 1 == 1, caps: caps.clone(), fill: check.fills[delta % check.fills.len()], align: (l + delta) & 15 };
+                                    let h = DecHistory { enc, mode: check.modes[0], sink, repl, stream: stream.clone(), cuts, last_on_empty: delta & 1 == 1, caps: caps.clone(), fill: check.fills[delta % check.fills.len()], align: (l + delta) & 15, sinks_per_call: vec![] };
                                     st.evals += 1;
                                     st.class("ascii-run-then-sequence-at-the-output-limit");
                                     if let Some((msg, sig)) = (check.verdict)(&h, &mut sc, st, true) {
@@ -372,9 +384,12 @@ pub fn verdict_c02(h: &DecHistory, sc: &mut Scratch, st: &mut Stats, enumerated:
     if !r.ok {
         return Some((format!("single-call reference run failed: {}", r.problem), "C02:reference".into()));
     }
-    let got = out.scalars(h.sink);
+    let got = out.scalars_of(h);
     if got.is_none() {
         return Some(("concatenated output is not well-formed".into(), "C02:illformed".into()));
+    }
+    if !h.sinks_per_call.is_empty() {
+        st.class("mixed-output-methods");
     }
     if got != r.scalars {
         return Some((format!("text differs from the single-call result: chunked [{}] single [{}]", fw::hex32(got.as_ref().unwrap()), fw::hex32(r.scalars.as_ref().unwrap_or(&vec![]))), "C02:text".into()));
@@ -419,7 +434,7 @@ pub fn verdict_c05(h: &DecHistory, sc: &mut Scratch, st: &mut Stats, enumerated:
     if let Some(m) = describe_fault(&out, &[FaultKind::Valid]) {
         return Some((m, "C05:valid".into()));
     }
-    if out.completed && out.scalars(h.sink).is_none() {
+    if out.completed && out.scalars_of(h).is_none() {
         return Some(("accumulated output is not well-formed".into(), "C05:accumulated".into()));
     }
     None
@@ -496,6 +511,7 @@ pub fn verdict_c08(h: &DecHistory, sc: &mut Scratch, st: &mut Stats, enumerated:
 pub fn verdict_c09(h: &DecHistory, sc: &mut Scratch, st: &mut Stats, enumerated: bool) -> Verdict {
     let mut hr = h.clone();
     hr.repl = true;
+    hr.sinks_per_call.clear();
     if matches!(hr.sink, Sink::Str | Sink::String) {
         hr.sink = Sink::Utf8;
     }
@@ -663,7 +679,7 @@ pub fn verdict_c10(h: &DecHistory, sc: &mut Scratch, st: &mut Stats, enumerated:
     if !r.ok {
         return Some((format!("no-BOM reference run failed: {}", r.problem), "C10:reference".into()));
     }
-    let got = out.scalars(h.sink);
+    let got = out.scalars_of(h);
     if got != r.scalars {
         return Some((format!("text differs from a no-BOM {} decoder on the stream minus its {}-byte BOM: got [{}] expected [{}]", enc2.name(), bomlen, fw::hex32(got.as_ref().unwrap_or(&vec![])), fw::hex32(r.scalars.as_ref().unwrap_or(&vec![]))), "C10:text".into()));
     }
